@@ -549,50 +549,82 @@ Proof. intros H. unfold absolute. rewrite H. reflexivity. Qed.
 Lemma map_arg_str_PStr l : map arg_str (map PStr l) = l.
 Proof. induction l; simpl; congruence. Qed.
 
-Definition env_serialisable (e : option parg) : Prop :=
-  match e with Some (PPath _) => False | _ => True end.
+Lemma env_as_str_id e :
+  match e with Some (PPath _) => False | _ => True end -> env_as_str e = e.
+Proof. destruct e as [[x|x]|]; simpl; intros H; auto. contradiction. Qed.
+
+Lemma set_env_same p : set_env (pr_env p) p = p.
+Proof. destruct p. reflexivity. Qed.
 
 Lemma save_load_general cwd a :
-  wf_path cwd -> env_serialisable (a_env a) ->
-  exists j, save (mk_project cwd a) = Some j /\
-            load cwd j = set_path (absolute cwd (pr_path (mk_project cwd a))) (mk_project cwd a).
+  wf_path cwd ->
+  load cwd (save (mk_project cwd a)) =
+  set_env (env_as_str (a_env a))
+          (set_path (absolute cwd (pr_path (mk_project cwd a))) (mk_project cwd a)).
 Proof.
-  intros Hc He.
+  intros Hc.
   assert (W : wf_path (pr_path (mk_project cwd a))).
   { unfold mk_project. cbn [pr_path]. destruct (a_path a); [apply absolute_wf; auto|]; apply parse_wf. }
-  unfold save. destruct a as [pa e un sp ad sm]. cbn [a_env] in He.
-  cbn [mk_project pr_env a_env a_path a_unsafe a_sys_path a_added a_smart] in *.
-  destruct e as [[s|s]|]; [| contradiction |].
-  - eexists. split; [reflexivity|]. unfold load, mk_project, set_path.
-    cbn [j_path j_env j_sys_path j_smart j_unsafe j_added a_path a_env a_unsafe a_sys_path a_added a_smart
-         pr_path pr_env pr_sys_path pr_smart pr_unsafe pr_django pr_added option_map].
-    rewrite parse_str by exact W. rewrite map_arg_str_PStr.
-    destruct sp as [l|]; cbn [option_map]; [rewrite map_arg_str_PStr|]; reflexivity.
-  - eexists. split; [reflexivity|]. unfold load, mk_project, set_path.
-    cbn [j_path j_env j_sys_path j_smart j_unsafe j_added a_path a_env a_unsafe a_sys_path a_added a_smart
-         pr_path pr_env pr_sys_path pr_smart pr_unsafe pr_django pr_added option_map].
-    rewrite parse_str by exact W. rewrite map_arg_str_PStr.
-    destruct sp as [l|]; cbn [option_map]; [rewrite map_arg_str_PStr|]; reflexivity.
+  destruct a as [pa e un sp ad sm].
+  unfold load, save, set_env, set_path, env_as_str.
+  cbn [mk_project pr_env a_env a_path a_unsafe a_sys_path a_added a_smart
+       j_path j_env j_sys_path j_smart j_unsafe j_added
+       pr_path pr_env pr_sys_path pr_smart pr_unsafe pr_django pr_added] in *.
+  unfold mk_project. cbn [a_env a_path a_unsafe a_sys_path a_added a_smart].
+  rewrite parse_str by exact W. rewrite map_arg_str_PStr.
+  assert (E : option_map PStr (option_map arg_str e) = option_map (fun x => PStr (arg_str x)) e)
+    by (destruct e; reflexivity).
+  rewrite E.
+  destruct sp as [l|]; cbn [option_map]; [rewrite map_arg_str_PStr|]; reflexivity.
 Qed.
 
 Lemma set_path_same p : set_path (pr_path p) p = p.
 Proof. destruct p. reflexivity. Qed.
 
+Lemma path_arg_ok_abs cwd a :
+  is_abs cwd = true ->
+  match a_path a with PStr _ => True | PPath s => is_abs (parse_path s) = true end ->
+  absolute cwd (pr_path (mk_project cwd a)) = pr_path (mk_project cwd a).
+Proof.
+  intros Ha Hp. apply absolute_of_abs. unfold mk_project. cbn [pr_path].
+  destruct (a_path a); auto. apply absolute_abs. auto.
+Qed.
+
+(* path argument fine, environment_path of any kind: everything survives, environment_path as its str *)
+Lemma save_load_roundtrip_any_env cwd a :
+  wf_path cwd -> is_abs cwd = true ->
+  match a_path a with PStr _ => True | PPath s => is_abs (parse_path s) = true end ->
+  load cwd (save (mk_project cwd a)) = set_env (env_as_str (a_env a)) (mk_project cwd a).
+Proof.
+  intros Hc Ha Hp. rewrite save_load_general by auto. rewrite path_arg_ok_abs by auto.
+  rewrite set_path_same. reflexivity.
+Qed.
+
 Lemma save_load_roundtrip cwd a :
   wf_path cwd -> is_abs cwd = true ->
   match a_path a with PStr _ => True | PPath s => is_abs (parse_path s) = true end ->
   match a_env a with Some (PPath _) => False | _ => True end ->
-  exists j, save (mk_project cwd a) = Some j /\ load cwd j = mk_project cwd a.
+  load cwd (save (mk_project cwd a)) = mk_project cwd a.
 Proof.
-  intros Hc Ha Hp He. destruct (save_load_general cwd a Hc He) as [j [H1 H2]].
-  exists j. split; auto. rewrite H2.
-  rewrite absolute_of_abs; [apply set_path_same|].
-  unfold mk_project. cbn [pr_path]. destruct (a_path a); auto. apply absolute_abs. auto.
+  intros Hc Ha Hp He. rewrite save_load_roundtrip_any_env by auto.
+  rewrite env_as_str_id by auto. apply (set_env_same (mk_project cwd a)).
 Qed.
 
-Lemma save_fails_on_path_object cwd a s :
-  a_env a = Some (PPath s) -> save (mk_project cwd a) = None.
-Proof. intros H. unfold save, mk_project. cbn [pr_env]. rewrite H. reflexivity. Qed.
+(* the str that comes back for a pathlib.Path environment_path is str(Path) *)
+Lemma loaded_env_of_path_object cwd a s :
+  a_env a = Some (PPath s) ->
+  pr_env (load cwd (save (mk_project cwd a))) = Some (PStr (path_str (parse_path s))).
+Proof.
+  intros H. unfold load, save, mk_project. cbn [pr_env j_env a_env]. rewrite H. reflexivity.
+Qed.
+
+(* old behaviour (before ba5f9c2) *)
+Lemma save_old_failed_on_path_object cwd a s :
+  a_env a = Some (PPath s) -> save_old (mk_project cwd a) = None.
+Proof. intros H. unfold save_old, mk_project. cbn [pr_env]. rewrite H. reflexivity. Qed.
+
+Lemma save_old_agrees p j : save_old p = Some j -> j = save p.
+Proof. unfold save_old. destruct (pr_env p) as [[x|x]|]; intros H; inversion H; reflexivity. Qed.
 
 (* ------------------------------------------------------------------ import resolution *)
 Lemma resolve_first has l e :
@@ -635,11 +667,10 @@ Qed.
 Lemma roundtrip_relative_path_refuted :
   exists cwd a,
     wf_path cwd /\ is_abs cwd = true /\ a_env a = None /\
-    exists j, save (mk_project cwd a) = Some j /\
-              pr_path (load cwd j) <> pr_path (mk_project cwd a).
+    pr_path (load cwd (save (mk_project cwd a))) <> pr_path (mk_project cwd a).
 Proof.
   exists w_cwd, w_rel_args. split; [apply w_cwd_wf|]. split; [reflexivity|]. split; [reflexivity|].
-  eexists. split; [reflexivity|]. vm_compute. discriminate.
+  vm_compute. discriminate.
 Qed.
 
 Lemma relative_project_no_ancestors_refuted :
